@@ -1,7 +1,7 @@
 \* leg C: traces of harness/drv_pipeconn against PipeConn.tla; invariants of {"C01"} conjoined to every step
 SPECIFICATION TraceSpec
 CONSTANTS
-  Callers = {0, 1, 2, 3, 4, 5, 6, 7, 8, 9}
+  Callers = {0, 1, 2, 3, 4, 5, 6, 7, 8, 9, 10, 11}
   M = 65536
   MaxCqs = {1}
   MaxCalls = 1000000
